@@ -175,6 +175,8 @@ def eval_term(tm, leaf: t.Callable[[tuple], t.Any]):
     if tag == "call" and tm[1][0] == "ext" and tm[1][1] in ("any", "all", "sum") and len(tm[2]) == 1 and not tm[3]:
         import builtins
         return getattr(builtins, tm[1][1])(eval_term(tm[2][0], leaf))
+    if tag == "call" and tm[1] == ("ext", "range") and 1 <= len(tm[2]) <= 3 and not tm[3]:
+        return range(*[int(eval_term(a, leaf)) for a in tm[2]])
     if tag == "call" and tm[1] == ("ext", "len") and len(tm[2]) == 1:
         return len(eval_term(tm[2][0], leaf))
     if tag == "call" and tm[1] == ("ext", "bool") and len(tm[2]) == 1:
